@@ -130,6 +130,16 @@ def shard(args):
                 modes += ('timeout+split',)
             for delivery in modes:
                 run_one(acc, front, framing, cfg, seq, delivery)
+    # requests of ONE function code with different lengths (FC16 with one and with three registers), mixed with reads
+    if framing != 'tls':
+        for cfg in (scenario.Cfg(True, (1,), False, False), scenario.Cfg(False, (1, 2), False, False)):
+            for n in (2, 3):
+                for seq in itertools.product(('M1', 'M3', 'R'), repeat=n):
+                    if 'M1' not in seq or 'M3' not in seq:
+                        continue
+                    nodes.add((cfg.name, seq))
+                    for delivery in (('pipelined', 'per-read') if kind == 'stream' else ('per-read',)):
+                        run_one(acc, front, framing, cfg, seq, delivery)
     # a hosted unit's datastore raises while a write is applied: a broadcast is still never answered, a directed
     # write is answered exactly once with exception 04 echoing the request's ids (same scenario as C10's fault cases)
     from checks import c10
